@@ -443,6 +443,9 @@ def _call_win(w, op):
 def _b_win(op, root, start, ws):
     if op.get('selpos') == 'before':
         w = _window(op, _sel(root, op.get('sel')), start, ws)
+    elif op.get('ridx'):
+        # window(...).reset_index()[sel]: the old index becomes a column, the window over the rows is the same
+        w = _sel(_window(op, root, start, ws).reset_index(), op.get('sel'))
     else:
         w = _sel(_window(op, root, start, ws), op.get('sel'))
     return _call_win(_wx(w, op), op)
@@ -864,7 +867,7 @@ def op_label(op, target=None):
         by = op['by'][0]
         return '%sgroupby-%s.%s%s' % (w, 'col' if by == 'col' else 'ser', op['agg'], sh)
     if fam in ('win', 'roll'):
-        return '%s%s%s' % (w, op['agg'], sh)
+        return '%s%s%s%s' % (w, 'reset_index.' if op.get('ridx') else '', op['agg'], sh)
     if fam == 'exp':
         return 'expanding.%s%s' % (op['agg'], sh)
     if fam == 'ewm':
